@@ -602,3 +602,41 @@ def run(repo: Repo, rep: Report, tier: str) -> None:
     ok24 = g20.dominates(u24, loop20) and not later
     rep.check(ok24, "C15-R24", "inliner: Entity parameters are bound after every re-seating of the entity table", "update(...) dominates the body loop, no re-seating after it" if ok24 else
               (f"`{norm(later[0])[:70]}` can run after the binding: a nested call loses its Entity arguments" if later else "the binding does not reach the body loop on every path"), inl20.loc(u24))
+
+    # ---------------- R25 --------------------------------------------------------------
+    rep.rule("C15-R25", "a parameter is looked up before anything else: wherever a lowering function resolves one name against both the parameter table and the table of "
+             "declared names, the parameter table is asked first (a loop takes its own names out of the parameter table, C16-R11, so nothing declared in the body can be "
+             "hidden by it) — the other order makes `param.type` or `param` in a callee answer with the caller's variable of the same name. And a function that resolves an "
+             "expression identifier by name at all (global symbol table, declared names) asks the parameter table as well")
+    n25 = 0
+    for f25 in repo.all_funcs():
+        if ".lowering." not in f25.module.name + ".":
+            continue
+        g25 = None
+        tests_p = [n for n in walk_local(f25.node) if isinstance(n, ast.If) and isinstance(n.test, ast.Compare) and isinstance(n.test.ops[0], ast.In) and norm(n.test.comparators[0]) == "self.parent.param_values"]
+        tests_s = [n for n in walk_local(f25.node) if isinstance(n, ast.If) and isinstance(n.test, ast.Compare) and isinstance(n.test.ops[0], ast.In) and norm(n.test.comparators[0]) == "self.parent.signal_refs"]
+        for tp in tests_p:
+            for ts in tests_s:
+                if norm(tp.test.left) != norm(ts.test.left):
+                    continue
+                n25 += 1
+                g25 = g25 or CFG(f25.node)
+                ok25 = g25.dominates(tp, ts) or tp.lineno < ts.lineno and not g25.dominates(ts, tp)
+                rep.check(ok25, "C15-R25", f"{f25.short}: `{norm(tp.test.left)}` is looked up among the parameters first", "parameter table first" if ok25 else
+                          "the table of declared names is asked first: inside a callee the caller's variable of that name answers for the parameter", f25.loc(ts))
+        # an expression identifier resolved by name without the parameter table
+        for iff in [n for n in walk_local(f25.node) if isinstance(n, ast.If) and "isinstance(" in norm(n.test) and "IdentifierExpr" in norm(n.test)]:
+            subj = next((c.args[0].id for c in ast.walk(iff.test) if isinstance(c, ast.Call) and call_name(c) == "isinstance" and len(c.args) == 2 and isinstance(c.args[0], ast.Name)
+                         and "IdentifierExpr" in norm(c.args[1])), None)
+            if subj is None:
+                continue
+            body25 = " ".join(norm(b) for b in iff.body)
+            by_name = any(k in body25 for k in (f"symbol_table.lookup({subj}.name)", f"current_scope.lookup({subj}.name)", f"signal_refs.get({subj}.name)", f"signal_refs[{subj}.name]"))
+            if not by_name:
+                continue
+            n25 += 1
+            asks = "param_values" in body25
+            rep.check(asks, "C15-R25", f"{f25.short}: an expression identifier resolved by name also asks the parameter table", "asks param_values" if asks else
+                      f"`{subj}.name` is looked up in the global symbol table / the declared names only: inside a function body a parameter of that name is taken for "
+                      "whatever the rest of the program calls so", f25.loc(iff))
+    rep.floor("C15-R25", "double look-ups of one name", n25, 1)
